@@ -440,6 +440,46 @@ def h_added_geometry(eng, resname, ff):
             eng.check(bool(dmin > 0.5), "no-coincident-atoms", note=f"{r} {a.name} is {dmin:.2f} A from {who}")
 
 
+AMINO20 = ["ALA", "ARG", "ASN", "ASP", "CYS", "GLN", "GLU", "GLY", "HIS", "ILE", "LEU", "LYS", "MET", "PHE", "PRO", "SER", "THR", "TRP", "TYR", "VAL"]
+
+
+def h_added_geometry_terminal(eng, ff, position):
+    """every residue type as the first / last residue of a chain (selector), options symbolic: hydrogens at template
+    distance from the parent their topology names (also the terminal -NH3+ / -NH2 hydrogens), no coincident atoms, and
+    no INPUT heavy atom displaced by hydrogen building (with --nodebump --noopt nothing else may move them)"""
+    from pdb2pqr import main, utilities
+
+    resname = AMINO20[eng.choice("residue", len(AMINO20))]
+    opt, debump = eng.flag("opt"), eng.flag("debump")
+    seq = ["ALA", "ALA", "ALA"]
+    idx = 0 if position == "nterm" else 2
+    seq[idx] = resname
+    lines = fixtures.peptide_lines(seq)
+    inputs = {(int(ln[22:26]), ln[12:16].strip()): (float(ln[30:38]), float(ln[38:46]), float(ln[46:54])) for ln in lines if ln.startswith("ATOM")}
+    try:
+        bm, defn = fixtures.prepared(lines)
+        main.non_trivial(fixtures.Args(ff=ff, pka_method=None, debump=debump, opt=opt), bm, None, defn, False)
+    except (ValueError, KeyError, TypeError, AttributeError) as e:
+        eng.check(True, "loud-failure-tolerated", note=type(e).__name__)
+        return
+    r = bm.residues[idx]
+    for a in r.atoms:
+        if a.is_hydrogen and a.name in r.reference.map:
+            t = r.reference.map[a.name]
+            pname = t.bonds[0]
+            p = r.get_atom(pname)
+            if p is None or pname not in r.reference.map or (pname == "N" and a.name == "H"):
+                continue  # the amide H is fitted across the peptide bond of the synthetic fixture
+            d = utilities.distance(a.coords, p.coords)
+            dt = utilities.distance(t.coords, r.reference.map[pname].coords)
+            eng.check(bool(abs(d - dt) < 0.12), "hydrogen-at-template-distance-from-its-topology-parent", note=f"{position} {r} {a.name}: {d:.2f} A from {pname} (template {dt:.2f} A); opt={opt} debump={debump}")
+            dmin, who = min((utilities.distance(a.coords, o.coords), o.name) for o in r.atoms if o is not a)
+            eng.check(bool(dmin > 0.5), "no-coincident-atoms", note=f"{r} {a.name} is {dmin:.2f} A from {who}")
+    if not opt and not debump:
+        moved = [(k, round(utilities.distance(bm.residues[k[0] - 1].get_atom(k[1]).coords, xyz), 2)) for k, xyz in inputs.items() if bm.residues[k[0] - 1].has_atom(k[1]) and utilities.distance(bm.residues[k[0] - 1].get_atom(k[1]).coords, xyz) > 0.002]
+        eng.check(not moved, "input-heavy-atoms-not-displaced-by-hydrogen-building", note=f"{position} {resname}: input atoms moved although debumping and optimisation are off: {moved[:4]}")
+
+
 WATER_SITES = {
     "contact": [(3.0, 8.0, 2.0)],
     "isolated": [(40.0, 42.0, 44.0)],
@@ -497,6 +537,9 @@ def obligations(tier):
     for r in ("ASH", "GLH", "SER", "TYR") if tier == "quick" else ("ASH", "GLH", "SER", "THR", "TYR", "ASN", "GLN", "HIS", "LYS"):
         for ff in ("parse",) if tier == "quick" else ("parse", "amber"):
             obs.append(Obligation(f"added-geometry-{r}-{ff}", h_added_geometry, dict(resname=r, ff=ff), group="added-geometry", time_cap=1500))
+    for ff in ("amber",) if tier == "quick" else ("amber", "parse", "charmm"):
+        for position in ("nterm", "cterm"):
+            obs.append(Obligation(f"added-geometry-{position}-{ff}", h_added_geometry_terminal, dict(ff=ff, position=position), group="added-geometry", time_cap=1500))
     for ff in ("parse",) if tier == "quick" else ("parse", "amber", "charmm"):
         obs.append(Obligation(f"added-water-{ff}", h_added_water, dict(ff=ff), group="added-geometry", time_cap=1500))
     # a hydrogen finalised (or placed by a donor attempt) on an oxygen with two bonds sits at a free tetrahedral position (C14's site harness)
